@@ -49,11 +49,11 @@ CLAIMED = {
  "C09": ("Contracts on one update step: the deletion step of retract/1 removes at most one clause and exactly the clause whose stored term is the one it unified with (found by identity at deletion time; no index can leave the clause list), assertz/asserta's merge functions put the new clauses after/before the existing ones with every clause keeping its term and code in order, assertMerge merges exactly the compiled clauses and changes no procedure when it fails, and the alternatives of a call hold their own copy of each clause (census on the captured variable) - the mechanism of the logical update view.",
          "Fragment: that every history of updates and open calls equals the sequential reference model is a statement about answer sequences (C01's obstacle) and is not decided; retractall/abolish are not under contract. Trusted: compile, piArg, id, Env.Unify; assumed: assertMerge's callbacks keep the procedure table.",
          "contract-based deductive verification: WP over go/ssa with slice-of-struct heap model, closures as functions, structural census", "DESIGN.md 5 C09"),
- "C20": ("Contracts on the loader: text.flush takes a run of clauses of one predicate in source order after the earlier clauses of that predicate, empties the buffer, and reports an error (changing neither the buffer nor the stored clauses) exactly when the predicate already has clauses in this text and is not discontiguous; the stored clause list never shares its backing array with the buffer; VM.Compile returns the text's or flush's error before the first write to the procedure table (a failed load defines nothing).",
-         "Fragment: the per-term loop (VM.compile: parsing, expansion, directives) is trusted to leave the procedure table alone (the property's 'side-effect-free directives') and to keep the text's invariants; the commit loop over the map, multifile merging, initialization goals, include/ensure_loaded are not decided.",
+ "C20": ("Contracts on the loader: text.flush takes a run of clauses of one predicate in source order after the earlier clauses of that predicate, empties the buffer, and reports an error (changing neither the buffer nor the stored clauses) exactly when the predicate already has clauses in this text and is not discontiguous; the stored clause list never shares its backing array with the buffer; VM.Compile returns the text's or flush's error before the first write to the procedure table (a failed load defines nothing); VM.compile reads every clause with an empty variable table (clauses of one text share no variables).",
+         "Fragment: the per-term loop (VM.compile: parsing, expansion, directives) is, apart from that one call-site obligation, trusted to leave the procedure table alone (the property's 'side-effect-free directives') and to keep the text's invariants; the commit loop over the map, multifile merging, initialization goals, include/ensure_loaded are not decided.",
          "contract-based deductive verification: WP over go/ssa with map and slice-of-struct heap model; SMT", "DESIGN.md 5 C20"),
- "C10": ("Contracts on how a clause is stored: every store compile makes into a clause's term field stores the given term with the bindings in force applied (for facts and rules alike), the body's alternatives and goals are read through iterators built with the clause's environment, the iterators and the goal walkers test the shape of a term only after Env.Resolve (structural data-flow obligation), and clause.varOffset gives a variable one slot: the offset returned names the variable, is its first occurrence, earlier offsets stay valid, a known variable gets no second slot, a new one the next slot.",
-         "Fragment: that the byte code denotes the source term (decompile-after-compile, and exec realising it) is a statement about instruction sequences and is not decided; compileClause/compilePred/compileHeadArg are not under contract; renamedCopy is trusted. F14b (a disjunctive clause is stored once per disjunct) is an open known finding.",
+ "C10": ("Contracts on how a clause is stored: every store compile makes into a clause's term field stores the given term with the bindings in force applied (for facts and rules alike), the body's alternatives and goals are read through iterators built with the clause's environment, the iterators and the goal walkers test the shape of a term only after Env.Resolve (structural data-flow obligation), the stored term must be detached from the caller's variables (renamed apart; open finding F30), and clause.varOffset gives a variable one slot: the offset returned names the variable, is its first occurrence, earlier offsets stay valid, a known variable gets no second slot, a new one the next slot.",
+         "Fragment: that the byte code denotes the source term (decompile-after-compile, and exec realising it) is a statement about instruction sequences and is not decided; compileClause/compilePred/compileHeadArg are not under contract; renamedCopy is trusted. F14b (a disjunctive clause is stored once per disjunct) and F30 (the stored term is not renamed apart from the caller's variables) are open known findings.",
          "contract-based deductive verification: WP over go/ssa with at-store obligations, loop invariants, structural data-flow obligations", "DESIGN.md 5 C10"),
  "C11": ("Contracts on the collectors: variant/3 builds a renaming that is injective (loop invariant over the map and its inverse) and tests term shapes only after Env.Resolve; findall/3 takes, per solution, a copy of the template in that solution's environment, appends it at the end of the answers, asks for the next solution, solves the goal and unifies the result list in the environment findall/3 was called in with the caller's continuation (captured variables never reassigned); the free-variable and ^-prefix walkers (newExistentialVariablesSet, iteratedGoalTerm, newVariableSet, newFreeVariablesSet) test term shapes only after Env.Resolve.",
          "Fragment: that bagof/setof's groups partition the solutions (one group per witness class, every solution once) needs the answer set of an arbitrary goal and is not decided; collectionOf's witness loop and Env.set (setof's sort+dedupe) are not under contract; renamedCopy and Env.Resolve are trusted.",
